@@ -16,6 +16,9 @@
 #include <iostream>
 #include <set>
 #include <unistd.h>
+#include <signal.h>
+#include <sys/wait.h>
+#include <poll.h>
 
 namespace vf
 {
@@ -85,6 +88,9 @@ namespace vf
     std::function<Result(const J &)> check;
     int max_size = 100;
     bool scale = true;                      // false: base_cases is not multiplied by the tier factor (complete enumerations)
+    bool isolate = false;                   // run every case in a forked child: no state survives from one case to the next,
+                                            // a crash of the code under test becomes an ordinary (shrinkable) failure
+    double case_timeout_s = 120;            // isolated cases only: a case running longer is killed and counted as a discard ("timeout")
   };
 
   struct SubStats
@@ -128,6 +134,75 @@ namespace vf
     f << text;
   }
 
+  inline J result_to_json(const Result &r)
+  {
+    J j = J::obj();
+    j["ok"] = r.ok; j["discard"] = r.discard; j["nontrivial"] = r.nontrivial; j["msg"] = r.msg; j["signature"] = r.signature;
+    j["inner"] = J(static_cast<double>(r.inner)); j["inner_nt"] = J(static_cast<double>(r.inner_nt));
+    J cl = J::arr();
+    for (auto &c : r.classes) cl.push(J(c));
+    j["classes"] = cl;
+    return j;
+  }
+  inline Result result_from_json(const J &j)
+  {
+    Result r;
+    r.ok = j.at("ok").boolean(); r.discard = j.at("discard").boolean(); r.nontrivial = j.at("nontrivial").boolean();
+    r.msg = j.at("msg").str(); r.signature = j.at("signature").str();
+    r.inner = static_cast<uint64_t>(j.at("inner").num()); r.inner_nt = static_cast<uint64_t>(j.at("inner_nt").num());
+    for (auto &c : j.at("classes").a) r.classes.push_back(c.str());
+    return r;
+  }
+
+  // Evaluate one case in a forked child. The parent never calls into the code under test, so every
+  // case starts from the same pristine process image.
+  inline Result run_isolated(const Sub &s, const J &c)
+  {
+    int fd[2];
+    if (pipe(fd) != 0) throw std::runtime_error("pipe failed");
+    const pid_t pid = fork();
+    if (pid < 0) throw std::runtime_error("fork failed");
+    if (pid == 0)
+      {
+        close(fd[0]);
+        Result r;
+        try { r = s.check(c); }
+        catch (const std::exception &e) { r = Result(); r.discard = true; r.classes.push_back(std::string("exception: ") + std::string(e.what()).substr(0, 90)); r.msg = std::string(e.what()).substr(0, 400); }
+        const std::string text = result_to_json(r).dump();
+        size_t off = 0;
+        while (off < text.size()) { const ssize_t k = ::write(fd[1], text.data() + off, text.size() - off); if (k <= 0) break; off += static_cast<size_t>(k); }
+        close(fd[1]);
+        _exit(0);
+      }
+    close(fd[1]);
+    std::string text;
+    char buf[65536];
+    bool timed_out = false;
+    const auto t0 = std::chrono::steady_clock::now();
+    for (;;)
+      {
+        struct pollfd pfd{fd[0], POLLIN, 0};
+        const int pr = ::poll(&pfd, 1, 1000);
+        if (pr > 0)
+          {
+            const ssize_t k = ::read(fd[0], buf, sizeof buf);
+            if (k <= 0) break;
+            text.append(buf, static_cast<size_t>(k));
+          }
+        if (std::chrono::duration<double>(std::chrono::steady_clock::now() - t0).count() > s.case_timeout_s) { timed_out = true; ::kill(pid, SIGKILL); break; }
+      }
+    close(fd[0]);
+    int st = 0;
+    waitpid(pid, &st, 0);
+    if (timed_out) { Result r; r.discard = true; r.classes.push_back("timeout(killed)"); r.signature = "timeout"; return r; }
+    if (WIFSIGNALED(st) || text.empty())
+      {
+        const int sig = WIFSIGNALED(st) ? WTERMSIG(st) : 0;
+        return Result::fail("crash-signal-" + std::to_string(sig), "the process running this case died with signal " + std::to_string(sig) + " (" + (sig == 11 ? "SIGSEGV" : sig == 6 ? "SIGABRT" : sig == 8 ? "SIGFPE" : "signal") + ")");
+      }
+    return result_from_json(J::parse(text));
+  }
+
   // ------------------------------------------------------------------ main driver of one executable
   inline int run_main(const std::string &property, int argc, char **argv, std::vector<Sub> subs)
   {
@@ -164,7 +239,7 @@ namespace vf
           if (s.name == sub)
             {
               Result r;
-              try { r = s.check(c.at("case")); }
+              try { r = s.isolate ? run_isolated(s, c.at("case")) : s.check(c.at("case")); }
               catch (const std::exception &e) { std::cout << "REPLAY-PASS property=" << property << " sub=" << sub << " (discarded: exception " << e.what() << ")\n"; return 0; }
               if (r.ok) { std::cout << "REPLAY-PASS property=" << property << " sub=" << sub << (r.discard ? " (discarded)" : "") << "\n"; return 0; }
               std::cout << "REPLAY-FAIL property=" << property << " sub=" << sub << " signature=" << r.signature << (is_known(r.signature) ? " known=1" : " known=0") << "\n" << r.msg << "\n";
@@ -218,7 +293,7 @@ namespace vf
             cur["property"] = property; cur["sub"] = s.name; cur["signature"] = "crash"; cur["message"] = "process died while running this case"; cur["case"] = c;
             write_file(curfile, cur.dump());
           }
-          try { r = s.check(c); }
+          try { r = s.isolate ? run_isolated(s, c) : s.check(c); }
           catch (const std::exception &e)
             {
               // an exception escaping a check body means the generated case is outside what the check can
@@ -228,6 +303,7 @@ namespace vf
               r.classes.push_back(std::string("exception: ") + std::string(e.what()).substr(0, 90));
               if (!shrinking_seen_failure && st.exception_samples.size() < 3) st.exception_samples.push_back(std::string(e.what()).substr(0, 400));
             }
+          if (r.discard && !r.msg.empty() && !shrinking_seen_failure && st.exception_samples.size() < 3) st.exception_samples.push_back(r.msg);
           if (!shrinking_seen_failure)
             {
               st.evaluations++;
